@@ -1,7 +1,9 @@
 """C07 — prefix matching is exact and its three implementations agree.
-Correspondence: cmd 3 (is_prefix both ways, strict, flatten_up_to). Oracle: three-way agreement of
+Correspondence: cmd 3 (is_prefix both ways, strict, flatten_up_to), cmd 25 (prefix_errors: the list of
+(key path, error kind)). Oracle: three-way agreement of
 flatten_up_to / is_prefix / prefix_errors, only ValueError, partition of the leaves, order laws."""
 import random
+from collections import OrderedDict
 
 import optree
 
@@ -106,6 +108,143 @@ def oracle_trans(res, rng, limit):
             res.count('chain_not_prefix')
 
 
+PE_KIND = (('different types', 0), ('different pytree keys', 1), ('different numbers of pytree children', 2),
+           ('different pytree metadata', 3))
+
+
+def abs_perr(e):
+    """(key path, kind) of one error closure returned by prefix_errors"""
+    msg = str(e('x')).split('\n', 1)[0]
+    kind = next((k for t, k in PE_KIND if t in msg), None)
+    if kind is None:
+        raise AssertionError('unclassified prefix error: ' + msg)
+    acc = next(c.cell_contents for c in e.__closure__ if isinstance(c.cell_contents, optree.PyTreeAccessor))
+    return (world.abs_path(acc.path), kind)
+
+
+def run_prefix_errors(res, rng, n, limit):
+    """cmd 25: the Python tree-vs-tree walk against the model, error list by error list"""
+    cmds, obs = [], []
+    for i in range(n):
+        cfg = gen.gen_cfg(rng, limit)
+        if rng.random() < 0.7:
+            cfg = (cfg[0], cfg[1], 0, cfg[3], cfg[4], cfg[5])
+        g = gen.TreeGen(rng, world.STRUCTSEQ_ARITY, max_nodes=rng.choice([6, 15, 30]),
+                        max_depth=rng.choice([3, 5, 8]), max_arity=rng.choice([2, 3, 5]))
+        if rng.random() < 0.5:
+            o1, o2, label = gen.gen_pair(rng, g, world.STRUCTSEQ_ARITY)
+            if rng.random() < 0.2:
+                o1, o2 = o2, o1
+        else:
+            # one to three local edits of the full tree under an almost complete prefix: several errors
+            o = g.tree()
+            o1 = gen.make_prefix(rng, o, rng.choice([0.0, 0.05, 0.15]))
+            o2 = gen.vary_dicts(rng, o) if rng.random() < 0.3 else o
+            k = rng.choice([1, 1, 2, 3])
+            for _ in range(k):
+                o2 = gen.local_edit(rng, o2, world.STRUCTSEQ_ARITY)
+            label = 'edits%d' % k
+        if rng.random() < 0.1:
+            # a custom node whose flatten function misbehaves, in either tree
+            which = rng.randrange(2)
+            o = (o1, o2)[which]
+            cust = [(p, x) for p, x in gen._subtrees(o) if x[0] == 1 and x[1][0] == 9]
+            if cust:
+                p, x = rng.choice(cust)
+                nn = len(x) - 2
+                eb = rng.choice([(3, rng.choice([0, 1, 4, 5])), (4, rng.randrange(1, 50)),
+                                 (2, *[(0, i) for i in range(nn + 1)])])
+                o = gen._replace(o, p, (1, (9, x[1][1], x[1][2], eb), *x[2:]))
+                o1, o2 = (o, o2) if which == 0 else (o1, o)
+                label += '_spoiled'
+        case = (25, cfg, o1, o2)
+        with world.World(cfg) as w:
+            r = random.Random(rng.getrandbits(48))
+            t1, t2 = world.realize(o1, r, {}), world.realize(o2, r, {})
+            kw = w.kw()
+            pe = attempt(lambda: optree.prefix_errors(t1, t2, **kw))
+            got = (0, tuple(abs_perr(e) for e in pe[1])) if pe[0] == 0 else pe
+            # third leg of the three-way agreement, on the implementation
+            st = attempt(lambda: optree.tree_structure(t1, **kw))
+            if st[0] == 0 and well_behaved(o1) and well_behaved(o2):
+                u = attempt(lambda: st[1].flatten_up_to(t2))
+                res.evaluations += 1
+                if pe[0] != 0:
+                    res.fail('prefix_errors raised', case, pe)
+                elif (len(pe[1]) == 0) != (u[0] == 0):
+                    res.fail('prefix_errors and flatten_up_to disagree', case, f'errors={got} up_to={u[0]}')
+                elif u[0] != 0 and u[1:] != (1,):
+                    res.fail('flatten_up_to raised something other than ValueError', case, u)
+        res.count('perr_' + label)
+        res.count('perr_result_%s' % ('raised' if got[0] != 0 else ('none' if not got[1] else 'k%d' % got[1][0][1])))
+        res.note_input(case, gen.obj_internal(o1) + gen.obj_internal(o2) >= 2)
+        cmds.append(case)
+        obs.append(got)
+    mod = runner.run_model(cmds)
+    for c, a, b in zip(cmds, obs, mod):
+        res.compare(c, a, b, 'cmd_prefix_errors')
+    for c in cmds[:1]:
+        res.sample(sx.dump(c)[:500])
+
+
+class Loose:
+    """a registered container whose path entries are instance data that its metadata does not determine
+    (outside the model's domain, where metadata determines the entries): entries are not part of the
+    structure — treespec equality, is_prefix and flatten_up_to ignore them"""
+    def __init__(self, children, meta, entries):
+        self.children, self.meta, self.entries = list(children), meta, tuple(entries)
+
+
+def oracle_loose_entries(res, rng, n):
+    ns = 'verif-c07-loose'
+    optree.register_pytree_node(Loose, lambda x: (x.children, x.meta, x.entries),
+                                lambda meta, ch: Loose(ch, meta, range(len(list(ch)))), namespace=ns)
+    try:
+        for i in range(n):
+            k = rng.randrange(0, 4)
+
+            def sub(depth):
+                r = rng.random()
+                if depth <= 0 or r < 0.4:
+                    return rng.randrange(100)
+                if r < 0.6:
+                    return (sub(depth - 1), sub(depth - 1))
+                if r < 0.8:
+                    return {'a': sub(depth - 1), 'b': sub(depth - 1)}
+                m = rng.randrange(0, 3)
+                return Loose([sub(depth - 1) for _ in range(m)], rng.randrange(2), rng.sample('pqrstuvw', m))
+            meta = rng.randrange(2)
+            a = Loose([rng.randrange(100) for _ in range(k)], meta, rng.sample('abcdefgh', k))
+            # same class, metadata and arity by default; one of them changed now and then
+            kb, metab = k, meta
+            r = rng.random()
+            if r < 0.15:
+                kb = k + 1
+            elif r < 0.3:
+                metab = 1 - meta
+            b = Loose([sub(2) for _ in range(kb)], metab, rng.sample('ijklmnop', kb) if rng.random() < 0.8 else a.entries[:kb] + tuple('z' * (kb - k)))
+            wrap = rng.randrange(3)
+            pa, pb = (a, b) if wrap == 0 else (((a, 1), (b, 2)) if wrap == 1 else ({'k': a}, OrderedDict(k=b)))
+            case = ('loose-entries', k, kb, meta, metab, a.entries, b.entries, wrap)
+            res.evaluations += 1
+            sa = optree.tree_structure(pa, namespace=ns)
+            sb = attempt(lambda: optree.tree_structure(pb, namespace=ns))
+            u = attempt(lambda: sa.flatten_up_to(pb))
+            pe = attempt(lambda: optree.prefix_errors(pa, pb, namespace=ns))
+            expect_ok = (kb == k and metab == meta)
+            res.count('loose_%s' % ('match' if expect_ok else 'mismatch'))
+            if (u[0] == 0) != expect_ok or (u[0] != 0 and u[1:] != (1,)):
+                res.fail('flatten_up_to on a custom node: wrong answer or not a ValueError', case, u)
+            if sb[0] == 0 and sa.is_prefix(sb[1]) != expect_ok:
+                res.fail('is_prefix on a custom node disagrees with flatten_up_to', case)
+            if pe[0] != 0:
+                res.fail('prefix_errors raised (custom nodes with equal metadata and different path entries)', case, pe)
+            elif (len(pe[1]) == 0) != expect_ok:
+                res.fail('prefix_errors and flatten_up_to disagree', case, str(len(pe[1])))
+    finally:
+        optree.unregister_pytree_node(Loose, namespace=ns)
+
+
 def run(res, tier, seed):
     rng = random.Random(seed * 1000003 + 7)
     limit = optree.MAX_RECURSION_DEPTH
@@ -113,6 +252,8 @@ def run(res, tier, seed):
     specops.run_pairs(res, rng, n, limit, hook=oracle_pair)
     for i in range(n // 3):
         oracle_trans(res, rng, limit)
+    run_prefix_errors(res, rng, 1500 if tier == 'quick' else 25000, limit)
+    oracle_loose_entries(res, rng, 300 if tier == 'quick' else 5000)
 
 
 if __name__ == '__main__':
